@@ -8,7 +8,7 @@ W=/tmp/seedfinal_wt_$P
 HEAD=$(git -C /repo rev-parse --short HEAD)
 for d in $(ls -d /root/seeded_stash/$P-* /verif/seeded/$P-* 2>/dev/null | sort -u); do
   n=$(basename $d)
-  [ -f build/seedresults/$n.txt ] && grep -q "head=$HEAD" build/seedresults/$n.txt && continue
+  [ -z "$FORCE" ] && [ -f build/seedresults/$n.txt ] && grep -q "head=$HEAD" build/seedresults/$n.txt && continue
   pf=$d/patch.diff; [ -f $d/patch_rebased.diff ] && pf=$d/patch_rebased.diff
   git -C $W checkout -q --detach $(git -C /repo rev-parse HEAD); git -C $W checkout -q -- .
   if ! git -C $W apply --check $pf 2>/dev/null; then echo "$n head=$HEAD result=NOAPPLY" > build/seedresults/$n.txt; echo "$n NOAPPLY"; continue; fi
